@@ -95,8 +95,18 @@ func NewWorld(mode string) *World {
 			[]*Term{App("ssub", SStr, s, zero, a), App("ssub", SStr, s, a, w.SLen(s))}),
 	)
 	bt := Atom("c", w.byteSort())
+	var ascii *Term
+	if w.Mode == "bv" {
+		ascii = App("bvult", SBool, bt, IntLit(0x80, SBV8))
+	} else {
+		ascii = And(w.Le(zero, bt), w.Lt(bt, w.Int(0x80)))
+	}
 	w.axioms = append(w.axioms,
-		Forall([]*Term{bt}, And(Eq(w.SLen(App("sbyte", SStr, bt)), w.Int(1)), Eq(App("sat", w.byteSort(), App("sbyte", SStr, bt), zero), bt)), []*Term{App("sbyte", SStr, bt)}))
+		// string(b) of a byte is the UTF-8 encoding of the code point b: one byte only below 0x80,
+		// two bytes (0xC2/0xC3, then a continuation byte) from 0x80 on
+		Forall([]*Term{bt}, And(
+			Imp(ascii, And(Eq(w.SLen(App("sbyte", SStr, bt)), w.Int(1)), Eq(App("sat", w.byteSort(), App("sbyte", SStr, bt), zero), bt))),
+			Imp(Not(ascii), Eq(w.SLen(App("sbyte", SStr, bt)), w.Int(2)))), []*Term{App("sbyte", SStr, bt)}))
 	return w
 }
 
@@ -260,6 +270,10 @@ func intWidth(b *types.Basic) int {
 		return 64
 	}
 }
+
+// mapTypeKey: heap components of maps are keyed by the underlying map type, so that a named map
+// type (memory.gframe) and its spelled-out form in a contract of another package share them
+func mapTypeKey(t types.Type) string { return typeKey(t.Underlying()) }
 
 func typeKey(t types.Type) string {
 	return smtName(types.TypeString(t, func(p *types.Package) string { return p.Name() }))
